@@ -83,3 +83,71 @@ def callee_short(name):
 
 def site_key(call):
     return "%s#%d" % (callee_short(call.name), call.ordinal)
+
+
+def backward_calls(body, local, depth=14):
+    """Calls in the intra-procedural backward data slice of `local` (through copies, borrows, fields,
+    aggregates and call arguments).  Returns list of Call (may contain duplicates-free set)."""
+    from .facts import rvalue_operands
+    seen_l = set()
+    out = []
+    seen_c = set()
+    work = [(local, 0)]
+    while work:
+        l, d = work.pop()
+        if l in seen_l or d > depth:
+            continue
+        seen_l.add(l)
+        for (bi, si, kind, st) in body.defs().get(l, []):
+            if kind in ("call", "pcall"):
+                c = body.call_at(bi)
+                if c is not None and (body.id, c.bb) not in seen_c:
+                    seen_c.add((body.id, c.bb))
+                    out.append(c)
+                    for a in c.args:
+                        if a[0] in ("c", "m"):
+                            work.append((a[1][0], d + 1))
+            else:
+                rv = st[2]
+                k = rv[0]
+                if k in ("ref", "rawptr"):
+                    pl = rv[2] if k == "ref" else rv[1]
+                    work.append((pl[0], d + 1))
+                elif k == "discr":
+                    work.append((rv[1][0], d + 1))
+                else:
+                    for op in rvalue_operands(rv):
+                        if op[0] in ("c", "m"):
+                            work.append((op[1][0], d + 1))
+    return out
+
+
+def switch_on(body, bb):
+    """if block bb ends in a switch, return (cond_local, negated, [(val, target)], otherwise) tracing `Not`"""
+    t = body.term(bb)
+    if t[0] != "switch":
+        return None
+    l = op_local(t[1])
+    if l is None:
+        return None
+    neg = False
+    for _ in range(4):
+        sd = body.single_def(l)
+        if sd is None:
+            break
+        bi, si, kind, st = sd
+        if kind == "assign" and st[2][0] == "un" and st[2][1] == "Not":
+            nl = op_local(st[2][2])
+            if nl is None:
+                break
+            neg = not neg
+            l = nl
+            continue
+        if kind == "assign" and st[2][0] == "use":
+            nl = op_local(st[2][1])
+            if nl is None:
+                break
+            l = nl
+            continue
+        break
+    return (l, neg, t[2], t[3])
